@@ -17,9 +17,9 @@ echo "seed $ID property $PROP worktree $WT"
 echo "--- patch stat"; git diff --stat | cat
 if [ -n "$DEMO" ]; then
   PYTHONPATH=$WT timeout 120 /venv/bin/python $DEMO > $OUT/demo_with.log 2>&1; W=$?
-  git stash -q
+  git diff > /tmp/seed_eval.patch; git apply -R /tmp/seed_eval.patch
   PYTHONPATH=$WT timeout 120 /venv/bin/python $DEMO > $OUT/demo_without.log 2>&1; WO=$?
-  git stash pop -q
+  git apply /tmp/seed_eval.patch
   echo "demo with change: exit $W ; without change: exit $WO"
 fi
 echo "--- checks on /repo with the patch applied"
